@@ -68,7 +68,7 @@ def showOutcome : Outcome → String
 
 /-- the converted stylesheet snippet table is cached per distinct table (the model's `convertSnippets` is pure; this only
     saves time) -/
-def run (cache : IO.Ref (List (List (T.Str × T.Str) × Except CA.Err (Array CA.Snippet)))) (a : List Nat) (u : RawConfig) (g : GlobalConfig) : IO Outcome := do
+def run (cache : IO.Ref (List (List (T.Str × T.Str) × Except CA.Err (Array CA.Snippet)))) (a : List Nat) (u : RawConfig) (g : GlobalConfig) (tieFirst : Bool := false) : IO Outcome := do
   if typeOf u == T.lit "stylesheet" then
     let tbl := mergedSnippets u g
     let c ← cache.get
@@ -80,15 +80,22 @@ def run (cache : IO.Ref (List (List (T.Str × T.Str) × Except CA.Err (Array CA.
         pure r)
     match sn with
     | .error e => return ofCss (.error e)
-    | .ok arr => return ofCss (CA.expandStylesheetPre a arr (stylesheetOptions u g))
+    | .ok arr => return ofCss (CA.expandStylesheetPre a arr { stylesheetOptions u g with tieFirst := tieFirst })
   else return expand a u g
 
 partial def go (cache : IO.Ref (List (List (T.Str × T.Str) × Except CA.Err (Array CA.Snippet)))) (h o : IO.FS.Stream) : IO Unit := do
+  -- stylesheet: both resolutions of exactly tied fuzzy candidates (`A ~~ B` when they differ)
+  let both (a : List Nat) (u : RawConfig) (g : GlobalConfig) : IO String := do
+    let r1 := showOutcome (← run cache a u g false)
+    if typeOf u == T.lit "stylesheet" then
+      let r2 := showOutcome (← run cache a u g true)
+      return (if r1 == r2 then r1 else r1 ++ " ~~ " ++ r2)
+    else return r1
   let line ← h.getLine
   if line.isEmpty then return ()
   match line.trimAsciiEnd.toString.splitOn ";" with
-  | [a, c] => o.putStrLn (showOutcome (← run cache (decode a) (parseSpec c) []))
-  | [a, c, g] => o.putStrLn (showOutcome (← run cache (decode a) (parseSpec c) (parseGlobal g)))
+  | [a, c] => o.putStrLn (← both (decode a) (parseSpec c) [])
+  | [a, c, g] => o.putStrLn (← both (decode a) (parseSpec c) (parseGlobal g))
   | _ => o.putStrLn "BADLINE"
   go cache h o
 /-! mode `resolve`: `spec;globalspec;probe,probe,…` → the resolved value of each probed key (`o:<keyhex>`, `sn:<keyhex>`, `vr:<keyhex>`) -/
